@@ -38,13 +38,16 @@ def _num(x, force_float=False):
     return float(x)
 
 
-def _arr(vals, dtype):
+def _arr(vals, dtype, shape=None):
+    from props.gcommon import relayout            # values as asked, memory layout varied (C / Fortran / strided view)
     vals = [fr(v) for v in vals]
     if dtype == "int":
-        return np.array([int(v) for v in vals], dtype=np.int64)
-    if dtype in ("uint8", "int32", "float32"):
-        return np.array([float(v) for v in vals]).astype({"uint8": np.uint8, "int32": np.int32, "float32": np.float32}[dtype])
-    return np.array([float(v) for v in vals], dtype=float)
+        a = np.array([int(v) for v in vals], dtype=np.int64)
+    elif dtype in ("uint8", "int32", "float32"):
+        a = np.array([float(v) for v in vals]).astype({"uint8": np.uint8, "int32": np.int32, "float32": np.float32}[dtype])
+    else:
+        a = np.array([float(v) for v in vals], dtype=float)
+    return relayout(a.reshape(shape) if shape is not None else a)
 
 
 def _interventions(spec, present):
@@ -152,7 +155,7 @@ def check(case):
         return ["discard_illconditioned"]
     dt = case.get("dtypes", {})
     Wf = case.get("Wform", "array")
-    Warr = _arr([x for row in case["W"] for x in row], dt.get("W", "float")).reshape(p, p)
+    Warr = _arr([x for row in case["W"] for x in row], dt.get("W", "float"), (p, p))
     if Wf == "list":
         Wgiven = Warr.tolist()
     elif Wf == "scalar" and p == 1:
